@@ -165,6 +165,35 @@ CLAIMED = {
         technique="contract-based deductive verification: bounds/address contracts, VCs from clang's AST, z3/cvc5 "
                   "with uninterpreted-product abstraction plus Lean-proved arithmetic lemma instances",
     ),
+    'C22': dict(
+        category='proof',
+        text="The sequential half of the statement is verified on the four errno functions with the saved errno "
+             "as ghost state: ffi.errno = v stores v (int range, else OverflowError and unchanged), ffi.errno reads "
+             "the saved value, save_errno_only/restore_errno_only copy between C errno and the saved value and touch "
+             "nothing else. The thread half is reduced to a declaration check on the real build's AST: the saved "
+             "errno has thread-local storage.",
+        design_ref='DESIGN.md section 4 C22',
+        note=COMMON_NOTE + "No interleaving is explored: isolation between threads rests on the C semantics of "
+             "__thread (assumed). Not decided: that every call path brackets the C call with restore/save "
+             "(cdata_call, callbacks, cffi_call_python, global-variable fetch, generated wrappers).",
+        technique="contract-based deductive verification with ghost state + AST declaration check",
+    ),
+    'C37': dict(
+        category='proof', engine='cvc+pyvc',
+        text="State-machine invariant by contracts: the library handle (dl_handle / l_libhandle) is written only by "
+             "the close functions (frame obligations on every accessor), closing sets it to NULL and calls dlclose "
+             "exactly once for an open library and never for a closed one (ghost call counters); with the handle "
+             "NULL, dl_load_function / dl_read_variable / dl_write_variable / cdlopen_fetch return an error without "
+             "any dlsym call or memory write; dlsym/dlclose carry a 'handle is not NULL' obligation at every call "
+             "site; ffi_dlclose empties the lib's cache dict together with the close; FFILibrary.__cffi_close__ "
+             "closes the backend library and then empties the instance dict.",
+        design_ref='DESIGN.md section 4 C37',
+        note=COMMON_NOTE + "PyArg_ParseTuple is an assumed contract keyed by the format string. Not decided: "
+             "lib_build_and_cache_attr (its three cdlopen_fetch call sites) and the attribute protocol of the in-line "
+             "FFILibrary class (properties, __getattr__).",
+        technique="contract-based deductive verification: closed-flag invariant through frame obligations, ghost "
+                  "call traces; cvc + pyvc",
+    ),
     'C25': dict(
         category='proof',
         text="search_sorted (the binary search behind all four runtime lookups) is verified with a loop invariant "
